@@ -62,6 +62,9 @@ func genC06(t *rapid.T) *c06Case {
 			c.Opts.Pass = 3
 		}
 	}
+	if rapid.IntRange(0, 15).Draw(t, "skipHeavy") == 11 {
+		steerSkipHeavy(t, c.Img, c.Opts)
+	}
 	if v := rapid.IntRange(0, 59).Draw(t, "medium"); v >= 20 && v <= 23 {
 		// 100..440 macroblocks with a rate-control target: several passes over a picture large enough for
 		// the encoder's mid-frame probability refreshes, with flat bars so that runs of skipped
